@@ -483,9 +483,12 @@ func (c Cell) ContainsPoint(p Point) bool {
 	//   CellFromPoint(p).ContainsPoint(p)
 	//
 	// is always true. To do this, we need to account for the error when
-	// converting from (u,v) coordinates to (s,t) coordinates. In the
-	// normal case the total error is at most dblEpsilon.
-	return c.uv.ExpandedByMargin(dblEpsilon).ContainsPoint(uv)
+	// converting from (u,v) coordinates to (s,t) coordinates. For most
+	// points the total error is at most dblEpsilon, but for points within a
+	// few ulps of a cell boundary the round trip (u,v) -> (s,t) -> (i,j) ->
+	// (s,t) -> (u,v) has been observed to be off by up to 1.25 * dblEpsilon,
+	// so we allow twice that.
+	return c.uv.ExpandedByMargin(2 * dblEpsilon).ContainsPoint(uv)
 }
 
 // Encode encodes the Cell.
